@@ -204,6 +204,11 @@ func (p *Program) classifyErrUse(fn *ssa.Function, errv ssa.Value) (string, stri
 					if v := x.Value(); v != nil {
 						work = append(work, v)
 					}
+				case name == "builtin append" || name == "builtin copy":
+					// collected into a slice: follow the slice
+					if v := x.Value(); v != nil {
+						work = append(work, v)
+					}
 				case name == "builtin panic":
 					up("recorded", "panic")
 				default:
